@@ -335,8 +335,11 @@ func main() {
 					if ci == 0 {
 						first = cur
 						unpObs = cur
-						// property oracle on the implementation alone
-						c05Oracle(st, i, g, ids, fr, end, sizes, len(out), human)
+						// property oracle on the implementation alone (a gzip stage may legitimately
+						// refuse to inflate beyond a tight limit: those cases are left to the model)
+						if lim == bigLim || !bytes.Contains(ids, []byte{'g'}) {
+							c05Oracle(st, i, g, ids, fr, end, sizes, len(out), human)
+						}
 					} else if cur != first {
 						st.Fail(i, "chunking", fmt.Sprintf("chunking %d decodes differently", ci), human)
 					}
